@@ -1,78 +1,354 @@
-import EinxModel.IR.Generic
-import EinxModel.Proofs.IR
-namespace Einx.IR
-open Einx
+import EinxModel.Generic.Grammar
+/-! Helper lemmas for C17 (statement grammar, skeleton, cost semantics). -/
+namespace Einx.Generic
 
-theorem evalProgG_map {ι α β : Type} (planOf : List (List Nat) → ι → E Plan)
-    {A : Alg α} {B : Alg β} {h : α → β} (hh : Hom A B h) :
-    ∀ (prog : List ι) (regs : List (Tensor α)),
-      evalProgG planOf B prog (regs.map (Tensor.map h)) = (evalProgG planOf A prog regs).map (·.map (Tensor.map h))
-  | [], regs => by simp [evalProgG, Except.map, pure, Except.pure]
-  | i :: is, regs => by
-    simp only [evalProgG, shapes_map]
-    cases hp : planOf (regs.map (·.shape)) i with
-    | error e => simp [bind, Except.bind, Except.map]
-    | ok p =>
-      simp only [bind, Except.bind]
-      have := evalProgG_map planOf hh is (regs ++ [runPlan A regs p])
-      simp only [List.map_append, List.map_cons, List.map_nil, ← runPlan_map hh] at this
-      exact this
+/-! ### digit abstraction -/
 
-/-- Generic validator soundness (any instruction set). -/
-theorem validateG_sound {ι : Type} (planOf : List (List Nat) → ι → E Plan)
-    (prog : List ι) (outs : List Nat) (expected : List (Tensor Cell))
-    (I : String → List Int → Int) (bad : Int) (xs : List (Tensor Int))
-    (hlen : ∀ x ∈ xs, x.data.length = prod x.shape)
-    (hv : validateG planOf prog (xs.map (·.shape)) outs expected = true) :
-    ∃ regs, evalProgG planOf (intAlgOf I bad) prog xs = .ok regs ∧
-      outs.map (fun r => regs[r]?) =
-        expected.map (fun t => some (t.map (evalCell (intAlgOf I bad) xs))) := by
-  unfold validateG at hv
-  cases hs : symRunG planOf prog (xs.map (·.shape)) outs with
-  | error e => simp [hs] at hv
-  | ok res =>
-    simp only [hs] at hv
-    have heq := tensorsBeq_eq _ _ hv
-    subst heq
-    unfold symRunG at hs
-    cases hr : evalProgG planOf symAlg prog (symInputs (xs.map (·.shape))) with
-    | error e => simp [hr, bind, Except.bind] at hs
-    | ok sregs =>
-      simp only [hr, bind, Except.bind] at hs
-      have hnat := evalProgG_map planOf (interp_hom I bad xs) prog (symInputs (xs.map (·.shape)))
-      rw [symInputs_interp _ xs hlen, hr] at hnat
-      refine ⟨_, hnat, ?_⟩
-      cases hsel : selectRegs sregs outs with
-      | none => simp [hsel] at hs
-      | some ts =>
-        simp only [hsel, pure, Except.pure, Except.ok.injEq] at hs
-        subst hs
-        exact selectRegs_map _ sregs outs ts hsel
+theorem holeDigits_noDigit : ∀ l : List Char, ∀ c ∈ holeDigits l, c.isDigit = false
+  | [] => by simp [holeDigits]
+  | c :: cs => by
+    have ih := holeDigits_noDigit cs
+    unfold holeDigits
+    by_cases hc : c.isDigit = true
+    · simp only [hc, if_true]
+      split
+      · rename_i rest heq
+        intro d hd
+        rw [heq] at ih
+        exact ih d hd
+      · rename_i rest _
+        intro d hd
+        rcases List.mem_cons.mp hd with h | h
+        · subst h; decide
+        · exact ih d h
+    · simp only [hc]
+      intro d hd
+      rcases List.mem_cons.mp hd with h | h
+      · subst h; simpa using hc
+      · exact ih d h
 
-/-- Symbolic equivalence of two programs implies equal outputs on all inputs and interpretations. -/
-theorem equivG_sound {ι : Type} (planOf : List (List Nat) → ι → E Plan)
-    (p1 p2 : List ι) (outs1 outs2 : List Nat)
-    (I : String → List Int → Int) (bad : Int) (xs : List (Tensor Int))
-    (hlen : ∀ x ∈ xs, x.data.length = prod x.shape)
-    (hv : equivG planOf p1 p2 (xs.map (·.shape)) outs1 outs2 = true) :
-    ∃ r1 r2, evalProgG planOf (intAlgOf I bad) p1 xs = .ok r1 ∧ evalProgG planOf (intAlgOf I bad) p2 xs = .ok r2 ∧
-      outs1.map (fun r => r1[r]?) = outs2.map (fun r => r2[r]?) := by
-  unfold equivG at hv
-  cases h1 : symRunG planOf p1 (xs.map (·.shape)) outs1 with
-  | error e => simp [h1] at hv
-  | ok res1 =>
-    cases h2 : symRunG planOf p2 (xs.map (·.shape)) outs2 with
-    | error e => simp [h1, h2] at hv
-    | ok res2 =>
-      simp only [h1, h2] at hv
-      have heq := tensorsBeq_eq _ _ hv
-      subst heq
-      have v1 : validateG planOf p1 (xs.map (·.shape)) outs1 res1 = true := by
-        simp [validateG, h1, hv]
-      have v2 : validateG planOf p2 (xs.map (·.shape)) outs2 res1 = true := by
-        simp [validateG, h2, hv]
-      obtain ⟨r1, e1, o1⟩ := validateG_sound planOf p1 outs1 res1 I bad xs hlen v1
-      obtain ⟨r2, e2, o2⟩ := validateG_sound planOf p2 outs2 res1 I bad xs hlen v2
-      exact ⟨r1, r2, e1, e2, o1.trans o2.symm⟩
+theorem holeDigits_id_of_noDigit : ∀ l : List Char, (∀ c ∈ l, c.isDigit = false) → holeDigits l = l
+  | [], _ => by simp [holeDigits]
+  | c :: cs, h => by
+    have hc : c.isDigit = false := h c (by simp)
+    have ih := holeDigits_id_of_noDigit cs (fun d hd => h d (by simp [hd]))
+    simp [holeDigits, hc, ih]
 
-end Einx.IR
+theorem holeDigits_idem (l : List Char) : holeDigits (holeDigits l) = holeDigits l :=
+  holeDigits_id_of_noDigit _ (holeDigits_noDigit l)
+
+theorem holeStr_idem (s : String) : holeStr (holeStr s) = holeStr s := by
+  simp [holeStr, holeDigits_idem]
+
+theorem Const.skel_idem (c : Const) : c.skel.skel = c.skel := by cases c <;> rfl
+
+/-! ### skeleton is idempotent -/
+
+mutual
+theorem PyExpr.skel_idem : ∀ e : PyExpr, e.skel.skel = e.skel
+  | .name _ => rfl
+  | .attr e _ => by simp [PyExpr.skel, PyExpr.skel_idem e]
+  | .call f as _ kv => by simp [PyExpr.skel, PyExpr.skel_idem f, PyExpr.skelL_idem as, PyExpr.skelL_idem kv]
+  | .subscript e i => by simp [PyExpr.skel, PyExpr.skel_idem e, PyExpr.skel_idem i]
+  | .slice a b c => by simp [PyExpr.skel, PyExpr.skel_idem a, PyExpr.skel_idem b, PyExpr.skel_idem c]
+  | .absent => rfl
+  | .tuple es => by simp [PyExpr.skel, PyExpr.skelL_idem es]
+  | .list es => by simp [PyExpr.skel, PyExpr.skelL_idem es]
+  | .dict ks vs => by simp [PyExpr.skel, PyExpr.skelL_idem ks, PyExpr.skelL_idem vs]
+  | .const c => by simp [PyExpr.skel, Const.skel_idem]
+  | .unary _ e => by simp [PyExpr.skel, PyExpr.skel_idem e]
+  | .binop _ l r => by simp [PyExpr.skel, PyExpr.skel_idem l, PyExpr.skel_idem r]
+  | .compare _ l r => by simp [PyExpr.skel, PyExpr.skel_idem l, PyExpr.skel_idem r]
+theorem PyExpr.skelL_idem : ∀ es : List PyExpr, PyExpr.skelL (PyExpr.skelL es) = PyExpr.skelL es
+  | [] => rfl
+  | e :: es => by simp [PyExpr.skelL, PyExpr.skel_idem e, PyExpr.skelL_idem es]
+end
+
+mutual
+theorem Stmt.skel_idem : ∀ s : Stmt, s.skel.skel = s.skel
+  | .import_ _ => rfl
+  | .importFrom _ _ => rfl
+  | .funcDef _ _ body => by simp [Stmt.skel, Stmt.skelL_idem body]
+  | .assign ts v => by simp [Stmt.skel, PyExpr.skelL_idem, PyExpr.skel_idem]
+  | .augAssign t _ v => by simp [Stmt.skel, PyExpr.skel_idem]
+  | .exprCall f as _ kv => by simp [Stmt.skel, PyExpr.skelL_idem, PyExpr.skel_idem]
+  | .assert_ t m => by
+    cases m <;> simp [Stmt.skel, PyExpr.skel_idem, holeStr_idem]
+  | .return_ v => by simp [Stmt.skel, PyExpr.skel_idem]
+theorem Stmt.skelL_idem : ∀ ss : List Stmt, Stmt.skelL (Stmt.skelL ss) = Stmt.skelL ss
+  | [] => rfl
+  | s :: ss => by simp [Stmt.skelL, Stmt.skel_idem s, Stmt.skelL_idem ss]
+end
+
+/-! ### skeleton preserves call counts -/
+
+mutual
+theorem PyExpr.calls_skel : ∀ e : PyExpr, e.skel.calls = e.calls
+  | .name _ => rfl
+  | .attr e _ => by simp [PyExpr.skel, PyExpr.calls, PyExpr.calls_skel e]
+  | .call f as _ kv => by simp [PyExpr.skel, PyExpr.calls, PyExpr.calls_skel f, PyExpr.callsL_skel as, PyExpr.callsL_skel kv]
+  | .subscript e i => by simp [PyExpr.skel, PyExpr.calls, PyExpr.calls_skel e, PyExpr.calls_skel i]
+  | .slice a b c => by simp [PyExpr.skel, PyExpr.calls, PyExpr.calls_skel a, PyExpr.calls_skel b, PyExpr.calls_skel c]
+  | .absent => rfl
+  | .tuple es => by simp [PyExpr.skel, PyExpr.calls, PyExpr.callsL_skel es]
+  | .list es => by simp [PyExpr.skel, PyExpr.calls, PyExpr.callsL_skel es]
+  | .dict ks vs => by simp [PyExpr.skel, PyExpr.calls, PyExpr.callsL_skel ks, PyExpr.callsL_skel vs]
+  | .const _ => rfl
+  | .unary _ e => by simp [PyExpr.skel, PyExpr.calls, PyExpr.calls_skel e]
+  | .binop _ l r => by simp [PyExpr.skel, PyExpr.calls, PyExpr.calls_skel l, PyExpr.calls_skel r]
+  | .compare _ l r => by simp [PyExpr.skel, PyExpr.calls, PyExpr.calls_skel l, PyExpr.calls_skel r]
+theorem PyExpr.callsL_skel : ∀ es : List PyExpr, PyExpr.callsL (PyExpr.skelL es) = PyExpr.callsL es
+  | [] => rfl
+  | e :: es => by simp [PyExpr.skelL, PyExpr.callsL, PyExpr.calls_skel e, PyExpr.callsL_skel es]
+end
+
+theorem Stmt.flatCalls_skel (s : Stmt) : s.skel.flatCalls = s.flatCalls := by
+  cases s <;> simp [Stmt.skel, Stmt.flatCalls, PyExpr.calls_skel, PyExpr.callsL_skel]
+
+mutual
+theorem Stmt.callCount_skel : ∀ s : Stmt, s.skel.callCount = s.callCount
+  | .import_ _ => rfl
+  | .importFrom _ _ => rfl
+  | .funcDef _ _ body => by simp [Stmt.skel, Stmt.callCount, Stmt.callCountL_skel body]
+  | .assign _ _ => by simp [Stmt.skel, Stmt.callCount, PyExpr.calls_skel, PyExpr.callsL_skel]
+  | .augAssign _ _ _ => by simp [Stmt.skel, Stmt.callCount, PyExpr.calls_skel]
+  | .exprCall _ _ _ _ => by simp [Stmt.skel, Stmt.callCount, PyExpr.calls_skel, PyExpr.callsL_skel]
+  | .assert_ _ _ => by simp [Stmt.skel, Stmt.callCount, PyExpr.calls_skel]
+  | .return_ _ => by simp [Stmt.skel, Stmt.callCount, PyExpr.calls_skel]
+theorem Stmt.callCountL_skel : ∀ ss : List Stmt, Stmt.callCountL (Stmt.skelL ss) = Stmt.callCountL ss
+  | [] => rfl
+  | s :: ss => by simp [Stmt.skelL, Stmt.callCountL, Stmt.callCount_skel s, Stmt.callCountL_skel ss]
+end
+
+/-! ### cost = call count -/
+
+mutual
+theorem Stmt.cost_eq : ∀ s : Stmt, s.cost = s.callCount
+  | .import_ _ => rfl
+  | .importFrom _ _ => rfl
+  | .funcDef _ _ body => by simp [Stmt.cost, Stmt.callCount, Stmt.costL_eq body]
+  | .assign _ _ => rfl
+  | .augAssign _ _ _ => rfl
+  | .exprCall _ _ _ _ => rfl
+  | .assert_ _ _ => rfl
+  | .return_ _ => rfl
+theorem Stmt.costL_eq : ∀ ss : List Stmt, Stmt.costL ss = Stmt.callCountL ss
+  | [] => rfl
+  | s :: ss => by simp [Stmt.costL, Stmt.callCountL, Stmt.cost_eq s, Stmt.costL_eq ss]
+end
+
+/-! ### the cost semantics performs exactly the syntactic number of calls, in every environment -/
+
+mutual
+theorem evalE_calls {V : Type} (ρ : Env V) (σ : String → V) : ∀ e : PyExpr, (evalE ρ σ e).2 = e.calls
+  | .name _ => rfl
+  | .attr e _ => by simp [evalE, PyExpr.calls, evalE_calls ρ σ e]
+  | .call f as _ kv => by
+    simp [evalE, PyExpr.calls, evalE_calls ρ σ f, evalL_calls ρ σ as, evalL_calls ρ σ kv]
+  | .subscript e i => by simp [evalE, PyExpr.calls, evalE_calls ρ σ e, evalE_calls ρ σ i]
+  | .slice a b c => by simp [evalE, PyExpr.calls, evalE_calls ρ σ a, evalE_calls ρ σ b, evalE_calls ρ σ c]
+  | .absent => rfl
+  | .tuple es => by simp [evalE, PyExpr.calls, evalL_calls ρ σ es]
+  | .list es => by simp [evalE, PyExpr.calls, evalL_calls ρ σ es]
+  | .dict ks vs => by simp [evalE, PyExpr.calls, evalL_calls ρ σ ks, evalL_calls ρ σ vs]
+  | .const _ => rfl
+  | .unary _ e => by simp [evalE, PyExpr.calls, evalE_calls ρ σ e]
+  | .binop _ l r => by simp [evalE, PyExpr.calls, evalE_calls ρ σ l, evalE_calls ρ σ r]
+  | .compare _ l r => by simp [evalE, PyExpr.calls, evalE_calls ρ σ l, evalE_calls ρ σ r]
+theorem evalL_calls {V : Type} (ρ : Env V) (σ : String → V) : ∀ es : List PyExpr, (evalL ρ σ es).2 = PyExpr.callsL es
+  | [] => rfl
+  | e :: es => by simp [evalL, PyExpr.callsL, evalE_calls ρ σ e, evalL_calls ρ σ es]
+end
+
+theorem assignTo_calls {V : Type} (ρ : Env V) (σ : String → V) (v : V) (t : PyExpr) :
+    (assignTo ρ σ v t).2 = t.calls := by
+  cases t <;> simp [assignTo, PyExpr.calls, evalE_calls, evalL_calls]
+
+theorem assignAll_calls {V : Type} (ρ : Env V) (v : V) : ∀ (ts : List PyExpr) (σ : String → V),
+    (assignAll ρ v σ ts).2 = PyExpr.callsL ts
+  | [], _ => rfl
+  | t :: ts, σ => by
+    simp [assignAll, PyExpr.callsL, assignTo_calls, assignAll_calls ρ v ts]
+
+theorem execStmt_calls {V : Type} (ρ : Env V) (σ : String → V) (s : Stmt) :
+    (execStmt ρ σ s).2 = s.flatCalls := by
+  cases s with
+  | import_ _ => rfl
+  | importFrom _ _ => rfl
+  | funcDef _ _ _ => rfl
+  | assign ts v => simp [execStmt, Stmt.flatCalls, evalE_calls, assignAll_calls]
+  | augAssign t o v =>
+    cases t <;> simp [execStmt, Stmt.flatCalls, evalE_calls]
+  | exprCall f as kn kv => simp [execStmt, Stmt.flatCalls, evalE_calls, PyExpr.calls]
+  | assert_ t _ => simp [execStmt, Stmt.flatCalls, evalE_calls]
+  | return_ v => simp [execStmt, Stmt.flatCalls, evalE_calls]
+
+theorem exec_calls {V : Type} (ρ : Env V) : ∀ (b : List Stmt) (σ : String → V), (exec ρ σ b).2 = flatCalls b
+  | [], _ => rfl
+  | s :: ss, σ => by simp [exec, flatCalls, execStmt_calls, exec_calls ρ ss]
+
+/-! ### equal skeletons ⇔ differ only in integer literals -/
+
+theorem Const.same_iff (c d : Const) : c.same d ↔ c.skel = d.skel := by
+  cases c <;> cases d <;> simp [Const.same, Const.skel] <;> exact eq_comm
+
+mutual
+theorem PyExpr.same_iff : ∀ a b : PyExpr, a.same b ↔ a.skel = b.skel
+  | .name n, b => by cases b <;> simp [PyExpr.same, PyExpr.skel, eq_comm]
+  | .attr e x, b => by
+    cases b <;> simp [PyExpr.same, PyExpr.skel]
+    rename_i e' x'
+    have h1 := PyExpr.same_iff e e'
+    constructor
+    · rintro ⟨_, ⟨rfl, rfl⟩, h⟩; exact ⟨h1.mp h, rfl⟩
+    · rintro ⟨h, rfl⟩; exact ⟨_, ⟨rfl, rfl⟩, h1.mpr h⟩
+  | .call f as kn kv, b => by
+    cases b <;> simp [PyExpr.same, PyExpr.skel]
+    rename_i f' as' kn' kv'
+    have h1 := PyExpr.same_iff f f'
+    have h2 := PyExpr.sameL_iff as as'
+    have h3 := PyExpr.sameL_iff kv kv'
+    constructor
+    · rintro ⟨_, _, _, ⟨rfl, rfl, rfl, rfl⟩, a, b, c⟩; exact ⟨h1.mp a, h2.mp b, rfl, h3.mp c⟩
+    · rintro ⟨a, b, rfl, c⟩; exact ⟨_, _, _, ⟨rfl, rfl, rfl, rfl⟩, h1.mpr a, h2.mpr b, h3.mpr c⟩
+  | .subscript e i, b => by
+    cases b <;> simp [PyExpr.same, PyExpr.skel]
+    rename_i e' i'
+    have h1 := PyExpr.same_iff e e'
+    have h2 := PyExpr.same_iff i i'
+    constructor
+    · rintro ⟨_, _, ⟨rfl, rfl⟩, a, b⟩; exact ⟨h1.mp a, h2.mp b⟩
+    · rintro ⟨a, b⟩; exact ⟨_, _, ⟨rfl, rfl⟩, h1.mpr a, h2.mpr b⟩
+  | .slice x y z, b => by
+    cases b <;> simp [PyExpr.same, PyExpr.skel]
+    rename_i x' y' z'
+    have h1 := PyExpr.same_iff x x'
+    have h2 := PyExpr.same_iff y y'
+    have h3 := PyExpr.same_iff z z'
+    constructor
+    · rintro ⟨_, _, _, ⟨rfl, rfl, rfl⟩, a, b, c⟩; exact ⟨h1.mp a, h2.mp b, h3.mp c⟩
+    · rintro ⟨a, b, c⟩; exact ⟨_, _, _, ⟨rfl, rfl, rfl⟩, h1.mpr a, h2.mpr b, h3.mpr c⟩
+  | .absent, b => by cases b <;> simp [PyExpr.same, PyExpr.skel]
+  | .tuple es, b => by
+    cases b <;> simp [PyExpr.same, PyExpr.skel]
+    rename_i es'
+    exact PyExpr.sameL_iff es es'
+  | .list es, b => by
+    cases b <;> simp [PyExpr.same, PyExpr.skel]
+    rename_i es'
+    exact PyExpr.sameL_iff es es'
+  | .dict ks vs, b => by
+    cases b <;> simp [PyExpr.same, PyExpr.skel]
+    rename_i ks' vs'
+    have h1 := PyExpr.sameL_iff ks ks'
+    have h2 := PyExpr.sameL_iff vs vs'
+    constructor
+    · rintro ⟨_, _, ⟨rfl, rfl⟩, a, b⟩; exact ⟨h1.mp a, h2.mp b⟩
+    · rintro ⟨a, b⟩; exact ⟨_, _, ⟨rfl, rfl⟩, h1.mpr a, h2.mpr b⟩
+  | .const c, b => by
+    cases b <;> simp [PyExpr.same, PyExpr.skel]
+    rename_i c'
+    exact Const.same_iff c c'
+  | .unary o e, b => by
+    cases b <;> simp [PyExpr.same, PyExpr.skel]
+    rename_i o' e'
+    have h1 := PyExpr.same_iff e e'
+    constructor
+    · rintro ⟨_, ⟨rfl, rfl⟩, h⟩; exact ⟨rfl, h1.mp h⟩
+    · rintro ⟨rfl, h⟩; exact ⟨_, ⟨rfl, rfl⟩, h1.mpr h⟩
+  | .binop o l r, b => by
+    cases b <;> simp [PyExpr.same, PyExpr.skel]
+    rename_i o' l' r'
+    have h1 := PyExpr.same_iff l l'
+    have h2 := PyExpr.same_iff r r'
+    constructor
+    · rintro ⟨_, _, ⟨rfl, rfl, rfl⟩, a, b⟩; exact ⟨rfl, h1.mp a, h2.mp b⟩
+    · rintro ⟨rfl, a, b⟩; exact ⟨_, _, ⟨rfl, rfl, rfl⟩, h1.mpr a, h2.mpr b⟩
+  | .compare o l r, b => by
+    cases b <;> simp [PyExpr.same, PyExpr.skel]
+    rename_i o' l' r'
+    have h1 := PyExpr.same_iff l l'
+    have h2 := PyExpr.same_iff r r'
+    constructor
+    · rintro ⟨_, _, ⟨rfl, rfl, rfl⟩, a, b⟩; exact ⟨rfl, h1.mp a, h2.mp b⟩
+    · rintro ⟨rfl, a, b⟩; exact ⟨_, _, ⟨rfl, rfl, rfl⟩, h1.mpr a, h2.mpr b⟩
+theorem PyExpr.sameL_iff : ∀ as bs : List PyExpr, PyExpr.sameL as bs ↔ PyExpr.skelL as = PyExpr.skelL bs
+  | [], bs => by cases bs <;> simp [PyExpr.sameL, PyExpr.skelL]
+  | a :: as, bs => by
+    cases bs with
+    | nil => simp [PyExpr.sameL, PyExpr.skelL]
+    | cons b bs' =>
+      simp [PyExpr.sameL, PyExpr.skelL]
+      have h1 := PyExpr.same_iff a b
+      have h2 := PyExpr.sameL_iff as bs'
+      constructor
+      · rintro ⟨_, _, ⟨rfl, rfl⟩, p, q⟩; exact ⟨h1.mp p, h2.mp q⟩
+      · rintro ⟨p, q⟩; exact ⟨_, _, ⟨rfl, rfl⟩, h1.mpr p, h2.mpr q⟩
+end
+
+mutual
+theorem Stmt.same_iff : ∀ a b : Stmt, a.same b ↔ a.skel = b.skel
+  | .import_ ns, b => by cases b <;> simp [Stmt.same, Stmt.skel, eq_comm]
+  | .importFrom m ns, b => by
+    cases b <;> simp [Stmt.same, Stmt.skel]
+    constructor
+    · rintro ⟨rfl, rfl⟩; exact ⟨rfl, rfl⟩
+    · rintro ⟨rfl, rfl⟩; exact ⟨rfl, rfl⟩
+  | .funcDef n ps body, b => by
+    cases b <;> simp [Stmt.same, Stmt.skel]
+    rename_i n' ps' body'
+    have h1 := Stmt.sameL_iff body body'
+    constructor
+    · rintro ⟨_, ⟨rfl, rfl, rfl⟩, h⟩; exact ⟨rfl, rfl, h1.mp h⟩
+    · rintro ⟨rfl, rfl, h⟩; exact ⟨_, ⟨rfl, rfl, rfl⟩, h1.mpr h⟩
+  | .assign ts v, b => by
+    cases b <;> simp [Stmt.same, Stmt.skel]
+    rename_i ts' v'
+    have h1 := PyExpr.sameL_iff ts ts'
+    have h2 := PyExpr.same_iff v v'
+    constructor
+    · rintro ⟨_, _, ⟨rfl, rfl⟩, p, q⟩; exact ⟨h1.mp p, h2.mp q⟩
+    · rintro ⟨p, q⟩; exact ⟨_, _, ⟨rfl, rfl⟩, h1.mpr p, h2.mpr q⟩
+  | .augAssign t o v, b => by
+    cases b <;> simp [Stmt.same, Stmt.skel]
+    rename_i t' o' v'
+    have h1 := PyExpr.same_iff t t'
+    have h2 := PyExpr.same_iff v v'
+    constructor
+    · rintro ⟨_, _, ⟨rfl, rfl, rfl⟩, p, q⟩; exact ⟨h1.mp p, rfl, h2.mp q⟩
+    · rintro ⟨p, rfl, q⟩; exact ⟨_, _, ⟨rfl, rfl, rfl⟩, h1.mpr p, h2.mpr q⟩
+  | .exprCall f as kn kv, b => by
+    cases b <;> simp [Stmt.same, Stmt.skel]
+    rename_i f' as' kn' kv'
+    have h1 := PyExpr.same_iff f f'
+    have h2 := PyExpr.sameL_iff as as'
+    have h3 := PyExpr.sameL_iff kv kv'
+    constructor
+    · rintro ⟨_, _, _, ⟨rfl, rfl, rfl, rfl⟩, a, b, c⟩; exact ⟨h1.mp a, h2.mp b, rfl, h3.mp c⟩
+    · rintro ⟨a, b, rfl, c⟩; exact ⟨_, _, _, ⟨rfl, rfl, rfl, rfl⟩, h1.mpr a, h2.mpr b, h3.mpr c⟩
+  | .assert_ t m, b => by
+    cases b <;> simp [Stmt.same, Stmt.skel]
+    rename_i t' m'
+    have h1 := PyExpr.same_iff t t'
+    constructor
+    · rintro ⟨_, _, ⟨rfl, rfl⟩, p, q⟩; exact ⟨h1.mp p, q⟩
+    · rintro ⟨p, q⟩; exact ⟨_, _, ⟨rfl, rfl⟩, h1.mpr p, q⟩
+  | .return_ v, b => by
+    cases b <;> simp [Stmt.same, Stmt.skel]
+    rename_i v'
+    exact PyExpr.same_iff v v'
+theorem Stmt.sameL_iff : ∀ as bs : List Stmt, Stmt.sameL as bs ↔ Stmt.skelL as = Stmt.skelL bs
+  | [], bs => by cases bs <;> simp [Stmt.sameL, Stmt.skelL]
+  | a :: as, bs => by
+    cases bs with
+    | nil => simp [Stmt.sameL, Stmt.skelL]
+    | cons b bs' =>
+      simp [Stmt.sameL, Stmt.skelL]
+      have h1 := Stmt.same_iff a b
+      have h2 := Stmt.sameL_iff as bs'
+      constructor
+      · rintro ⟨_, _, ⟨rfl, rfl⟩, p, q⟩; exact ⟨h1.mp p, h2.mp q⟩
+      · rintro ⟨p, q⟩; exact ⟨_, _, ⟨rfl, rfl⟩, h1.mpr p, h2.mpr q⟩
+end
+
+end Einx.Generic
